@@ -54,7 +54,7 @@ ASSUMPTIONS = [
 OUTSIDE = [
     "that GEOS' union / intersection / difference agree with point-wise membership, that Agg's point-in-path test agrees with GEOS, validity checking, results that are not single polygons, buffer / resample (GEOS, scipy splines)",
     "shapes beyond small convex polygons; that membership is preserved by an affine map of shape and point (a fact about GEOS / Agg, not about tdgl's code)",
-    "Device.translate of an existing mesh",
+    "the rebuild of the finite-volume mesh inside Device.translate (C07's subject; a stub that installs the shifted points in the symbolic run, the real rebuild in every concrete run)",
 ]
 FEASIBILITY = "all"
 TV_SAMPLES = {"quick": 2, "thorough": 2}
@@ -89,6 +89,10 @@ def cases(tier, seed):
         out.append(Case(f"device:holes={nh}", kind="device", holes=nh, probes=b["probes"], seed=seed))
     for op in ("translate", "rotate", "scale"):
         out.append(Case(f"device-transform:{op}", kind="devtf", op=op, seed=seed))
+    from symx import meshes
+
+    meshes.warm(["T2"], seed)
+    out.append(Case("device-translate-in-place:mesh-shared-with-a-copy", kind="sharedmesh", seed=seed))
     return out
 
 
@@ -409,6 +413,41 @@ def body_device(H, case):
     cp.holes and cp.holes[0].scale(2.0, 2.0, inplace=True)
     for a, s in zip(dev.polygons, snaps):
         H.prove(f"transforming the copy in place leaves {a.name} of the original unchanged", unchanged(H, a, s))
+
+
+def body_sharedmesh(H, case):
+    """`Device.copy()` hands the Mesh object of the original to the copy.  Translating one of the two in place must
+    move its own mesh with it and leave the other device's mesh where that device's film is."""
+    from types import SimpleNamespace
+
+    from symx import meshes
+
+    dev, film, holes, terms = make_device(H, 0)
+    mesh = meshes.get("T2", case.seed)
+    sites0 = np.array(mesh.sites, dtype=float)
+    sym = H.mode == "sym"
+    if sym:
+        mesh.sites = H.array2([[float(v) for v in row] for row in sites0])  # (constants, but symbolic-array semantics)
+    dev.mesh = mesh
+    cp = dev.copy(with_mesh=True)
+    H.prove("the copy is a different device", cp is not dev)
+    dx, dy = H.real("dx", lo=-50.0, hi=50.0), H.real("dy", lo=-50.0, hi=50.0)
+    if sym:
+        # the rebuild of the finite-volume mesh from the shifted points is C07's subject: here it installs a new mesh
+        # object holding the points it was given
+        def rebuild(points, triangles, _d=dev):
+            _d.mesh = SimpleNamespace(sites=points / _d.coherence_length.magnitude, elements=triangles)
+
+        dev._create_dimensionless_mesh = rebuild
+    dev.translate(dx, dy, inplace=True)
+    xi = float(dev.coherence_length.magnitude)
+    for i in range(len(sites0)):
+        H.prove_eq(f"site {i} of the untouched copy's mesh stays where it was (x)", K.at(cp.mesh.sites, i, 0), float(sites0[i, 0]), scale=1.0)
+        H.prove_eq(f"site {i} of the untouched copy's mesh stays where it was (y)", K.at(cp.mesh.sites, i, 1), float(sites0[i, 1]), scale=1.0)
+        H.prove_eq(f"site {i} of the translated device's mesh moved with it (x)", K.at(dev.mesh.sites, i, 0), float(sites0[i, 0]) + dx / xi, scale=1.0)
+        H.prove_eq(f"site {i} of the translated device's mesh moved with it (y)", K.at(dev.mesh.sites, i, 1), float(sites0[i, 1]) + dy / xi, scale=1.0)
+    fr_c, fr_d = rows(cp.film.points), rows(dev.film.points)
+    H.prove_eq("the copy's film did not move", fr_c[0][0] + dx, fr_d[0][0], scale=1.0)
 
 
 def body_devtf(H, case):
